@@ -143,6 +143,12 @@ theorem rbin_result_kind (b : BinOp) (s r : KS α κ) (o : Operand α κ) (h : r
     · obtain ⟨h1, h2⟩ := inv_orOp h; exact ⟨⟨h2.1, h2.2⟩, h1.wf⟩
     · obtain ⟨h1, h2⟩ := inv_rsubOp (s := s) (o := .pyset xs) h; exact ⟨⟨h2.1, h2.2⟩, h1.wf⟩
     · obtain ⟨h1, h2⟩ := inv_xorOp (s := s) (o := .pyset xs) h; exact ⟨⟨h2.1, h2.2⟩, h1.wf⟩
+  | pyfrozen xs =>
+    cases b
+    · obtain ⟨h1, h2⟩ := inv_andOp h; exact ⟨⟨h2.1, h2.2⟩, h1.wf⟩
+    · obtain ⟨h1, h2⟩ := inv_orOp h; exact ⟨⟨h2.1, h2.2⟩, h1.wf⟩
+    · obtain ⟨h1, h2⟩ := inv_rsubOp (s := s) (o := .pyfrozen xs) h; exact ⟨⟨h2.1, h2.2⟩, h1.wf⟩
+    · obtain ⟨h1, h2⟩ := inv_xorOp (s := s) (o := .pyfrozen xs) h; exact ⟨⟨h2.1, h2.2⟩, h1.wf⟩
   | pylist xs =>
     cases b
     · obtain ⟨h1, h2⟩ := inv_andOp h; exact ⟨⟨h2.1, h2.2⟩, h1.wf⟩
@@ -513,6 +519,18 @@ theorem clear_spec (s : KS α κ) (hwf : WF s) : clear s = ({ s with dict := [] 
       obtain ⟨h1, h2⟩ := hinv.2
       cases s; cases s'; simp_all
 
+/-! ## operator results are values of their own -/
+
+/-- **The result of `| & - ^` (and reflected) never aliases an operand**: mutating the
+result (`probe` toggles `x` in it) leaves the receiver exactly as it was, and the
+receiver's own later mutation is the one it would have undergone without the
+operator. (In the model a result is a fresh value; the correspondence checks
+`r is not a and r is not b` and the re-reads on the real objects.) -/
+theorem probe_independent (s : KS α κ) (refl : Bool) (b : BinOp) (o : Operand α κ) (x : α) (r : KS α κ)
+    (h : (if refl then rbinOp b s o else binOp b s o) = .ok r) :
+    step s (.probe refl b o x) = ((toggleAllP s [x]).1, .probe (toggleAllP r [x]).1 s) := by
+  simp only [step, h]
+
 /-! ## failing operations leave the set unchanged -/
 
 /-- Every operation that raises leaves the set as it was — except the bulk
@@ -528,6 +546,7 @@ theorem failed_step_unchanged (s : KS α κ) (op : Op α κ) (e : Err)
   | remove x => simp only [step] at h ⊢; split <;> simp_all
   | pop => simp only [step] at h ⊢; split <;> simp_all
   | rebind b o => simp only [step] at h ⊢; split <;> simp_all
+  | probe refl b o x => simp only [step] at h ⊢; split <;> simp_all
   | clear => cases hop
   | inplace i o => cases hop
   | inplaceSelf i => cases hop
